@@ -113,7 +113,12 @@ class Bench:
                 return False
             try:
                 if self.client._recvlock.locked():
-                    self.client._dispatch(self.client._channel.recv())
+                    data = self.client._channel.recv()
+                    self.client._recvlock.release()
+                    try:
+                        self.client._dispatch(data)
+                    finally:
+                        self.client._recvlock.acquire()
                 else:
                     self.client.serve(0)
             except EOFError:
